@@ -89,6 +89,13 @@ Proof.
     apply Rlt_Rpower_l; [exact Hic|]. lra.
 Qed.
 
+Lemma JensenSeaton_monotone K a b c p q : JensenSeaton_bounds K a b c -> 0 < K -> 0 < a -> 0 < c ->
+  0 <= p -> p <= q -> JensenSeaton_loading K a b c p <= JensenSeaton_loading K a b c q.
+Proof.
+  intros HB HK Ha Hc Hp Hpq. destruct (Req_dec p q) as [->|Hne]; [apply Rle_refl|].
+  left. apply JensenSeaton_strictly_monotone; try assumption. lra.
+Qed.
+
 (* any two non-negative roots the solver may return coincide, given strict monotonicity of the loading *)
 Lemma JensenSeaton_root_unique_from_monotone K a b c n x y :
   (forall u v, 0 <= u -> u < v -> JensenSeaton_loading K a b c u < JensenSeaton_loading K a b c v) ->
